@@ -181,7 +181,11 @@ def run(tier):
         "TLC 1.8.0 and the JSON community module are trusted",
     ]
 
-    # ---- P1: liveness + agreement of the two forms of the spec (small family of lines, ALL tables, unpruned) ----
+    # ---- calibration of the oracle against the manual's and alias-p.sh's worked examples (DESIGN 4.4) ----
+    def calib():
+        return vlib.tlc("Calib_Alias", "Calib_Alias.cfg", workers=1, timeout=300)
+
+    # ---- P1: liveness + agreement of the two forms of the spec (small family of lines, ALL tables) ----
     def live():
         return vlib.tlc("Alias", "MC_Alias_live.cfg", workers=4, timeout=TLC_TIMEOUT[tier])
 
@@ -194,12 +198,16 @@ def run(tier):
 
     cfgs = GEN_CONFIGS[tier]
     with ThreadPoolExecutor(max_workers=2) as ex:
+        f_calib = ex.submit(calib)
         f_live = ex.submit(live)
         gens = []
         # the generator runs are the heavy ones: one after another, alongside the liveness run
         for cfg in cfgs:
             gens.append(gen(cfg))
         r_live = f_live.result()
+        r_calib = f_calib.result()
+    vlib.tlc_must_pass(r_calib, "calibration of Result(table, line) (Calib_Alias)")
+    vlib.log(f"[tlc] Calib_Alias: worked examples of the manual and of alias-p.sh hold for the oracle ({r_calib.wall:.1f}s)")
     vlib.tlc_must_pass(r_live, "liveness / FinalsAgree (MC_Alias_live.cfg)")
     vlib.log(f"[tlc] MC_Alias_live.cfg: termination (<>Done under WF), variant, FinalsAgree, determinism: "
              f"{r_live.distinct} states, {r_live.wall:.1f}s")
@@ -225,6 +233,8 @@ def run(tier):
             continue
         s = _summary(out, f"replay {cfg}")
         nbad = _report_bad(rep, "replay", bad)
+        if s.get("stopped_early"):
+            vlib.log(f"[p4] {cfg}: replay stopped after {nbad} failing cases; the rest of the cases was not replayed")
         vlib.log(f"[p4] {cfg}: {r.distinct} states ({r.wall:.1f}s); {s['cases']} (table, line) cases replayed on the real "
                  f"parser: {s['agree_parsed']} parsed+equal, {s['agree_syntax_error']} both syntax errors, "
                  f"{s['unspecified_skipped']} unspecified skipped, {s['ambiguous']} with two allowed results, {nbad} BAD")
@@ -255,7 +265,9 @@ def run(tier):
     else:
         rnd = _trace_sharded(rep, "random", rec, res, shards=8, timeout=TLC_TIMEOUT[tier])
         states += rnd["states"]
-        out, _ = _harness(["judge", "--rec", rec, "--res", res, "--out", bad], "judge")
+        out, hang = _harness(["judge", "--rec", rec, "--res", res, "--out", bad], "judge")
+        if hang is not None:
+            raise vlib.ToolError(f"parser hung on alias-free text: {hang}")
         js = _summary(out, "judge")
         nbad = 0
         for r_ in vlib.read_ndjson(bad):
@@ -284,7 +296,9 @@ def run(tier):
     else:
         e2e = _trace_sharded(rep, "e2e", rec, res, shards=4, timeout=TLC_TIMEOUT[tier])
         states += e2e["states"]
-        out, _ = _harness(["e2e", "judge", "--rec", rec, "--res", res, "--out", bad], "e2e judge")
+        out, hang = _harness(["e2e", "judge", "--rec", rec, "--res", res, "--out", bad], "e2e judge")
+        if hang is not None:
+            raise vlib.ToolError(f"shell hung on alias-free text: {hang}")
         es = _summary(out, "e2e judge")
         nbad = 0
         for r_ in vlib.read_ndjson(bad):
